@@ -96,7 +96,8 @@ fn p_scss(v: &[D], ind: usize, out: &mut String) {
                 out.push_str(&format!("{}}}\n", pad));
             }
             D::RuleLines(parts, _, b) => {
-                out.push_str(&format!("{}{} {{\n", pad, parts.join(", ")));
+                // a line break after a comma is kept in the output, so the SCSS twin breaks its lines too
+                out.push_str(&format!("{}{} {{\n", pad, parts.join(&format!(",\n{}", pad))));
                 p_scss(b, ind + 1, out);
                 out.push_str(&format!("{}}}\n", pad));
             }
